@@ -43,6 +43,9 @@ def generate(r, tier):
     engine = r.choice(["sync", "sync", "loop", "loop", "threads"])
     is_async = engine == "loop"
     world = gen.gen_world(r, is_async, nfuncs=(1, 3), with_class=0.7, forms=r.random() < 0.3, async_methods=is_async and r.random() < 0.5, mixed=True, subclass=0.4)
+    if len(world["funcs"]) > 1 and r.random() < 0.3:
+        for f_ in world["funcs"]:
+            f_["qualname"] = "make_handler.<locals>.handler"  # the functions come out of one factory: same module, same qualified name
     units = gen.units_of(world)
     profile = {
         "p_falsy": r.choice([0.0, 0.2, 0.4]),
